@@ -406,6 +406,24 @@ func (ex *Exec) rtypeMethod(rt RTypeV, marker types.Type, name string, args []Va
 		return Bool(types.AssignableTo(t, ex.rtypeOf(args[0])))
 	case "ConvertibleTo":
 		return Bool(types.ConvertibleTo(t, ex.rtypeOf(args[0])))
+	case "OverflowInt":
+		w := widthOf(t)
+		x := args[0].(*Term)
+		return ex.f.Not(ex.f.Eq(ex.f.Resize(ex.f.Resize(x, w, true), 64, true), x))
+	case "OverflowUint":
+		w := widthOf(t)
+		x := args[0].(*Term)
+		return ex.f.Not(ex.f.Eq(ex.f.Resize(ex.f.Resize(x, w, false), 64, false), x))
+	case "OverflowFloat":
+		x := args[0].(FloatV)
+		if floatBits(t) == 64 {
+			return termFalse
+		}
+		if x.t == nil {
+			return Bool(math.Abs(x.f) > math.MaxFloat32 && !math.IsInf(x.f, 0))
+		}
+		ab := ex.f.FOp(OpFAbs, 64, x.t, nil)
+		return ex.f.And(ex.f.FOp(OpFLt, 0, Const(math.Float64bits(math.MaxFloat32), 64), ab), ex.f.Not(ex.f.Eq(ab, Const(math.Float64bits(math.Inf(1)), 64))))
 	case "Field":
 		st, ok := t.Underlying().(*types.Struct)
 		if !ok {
@@ -974,9 +992,43 @@ func init() {
 		t, _, _ := ex.rvalMust(a[0], "Comparable")
 		return Bool(types.Comparable(t))
 	}
+	m["NumMethod"] = func(ex *Exec, pk string, _ *ssa.Function, a []Value) Value {
+		t, _, _ := ex.rvalMust(a[0], "NumMethod")
+		if it, ok := t.Underlying().(*types.Interface); ok {
+			return intV(it.NumMethods())
+		}
+		ms := types.NewMethodSet(t)
+		n := 0
+		for i := 0; i < ms.Len(); i++ {
+			if ms.At(i).Obj().Exported() {
+				n++
+			}
+		}
+		return intV(n)
+	}
 	m["Equal"] = func(ex *Exec, pk string, _ *ssa.Function, a []Value) Value {
+		_, _, _, ok1 := ex.rvalParts(a[0].(*Cont))
+		_, _, _, ok2 := ex.rvalParts(a[1].(*Cont))
+		if !ok1 || !ok2 {
+			return Bool(ok1 == ok2)
+		}
 		t, loc, _ := ex.rvalMust(a[0], "Equal")
 		t2, loc2, _ := ex.rvalMust(a[1], "Equal")
+		// interfaces are compared by their dynamic content
+		if _, isI := t.Underlying().(*types.Interface); isI {
+			iv := ex.load(loc).(IfaceV)
+			if iv.t == nil {
+				return Bool(false)
+			}
+			t, loc = iv.t, ex.newObj(iv.v)
+		}
+		if _, isI := t2.Underlying().(*types.Interface); isI {
+			iv := ex.load(loc2).(IfaceV)
+			if iv.t == nil {
+				return Bool(false)
+			}
+			t2, loc2 = iv.t, ex.newObj(iv.v)
+		}
 		if !types.Identical(t, t2) {
 			return termFalse
 		}
